@@ -58,6 +58,7 @@ type taskState struct {
 	done      bool
 	dead      bool
 	blockedSince time.Time
+	afterShutdown bool // the current attempt was invoked after Shutdown of its provider had returned
 }
 
 type world struct {
@@ -499,6 +500,7 @@ func (w *world) acquire(ts *taskState, lk gsync.Locker, op sim.Op, i int) {
 	var cancel context.CancelFunc
 	ctxDoneBefore := false
 	ts.acquiring = true
+	ts.afterShutdown = shutBefore
 	ts.blockedSince = time.Now()
 	ts.ctxLive = func() bool { return true }
 	switch op.K {
@@ -683,6 +685,17 @@ func (w *world) stallSlack() time.Duration { return 8*w.e.RT.MaxParked + time.Mi
 
 // checkProgress: lost hand-off detector (C04 oracle 1).
 func (w *world) checkProgress(e *sim.Env, quiet bool) {
+	// an attempt invoked after Shutdown returned can never acquire (oracle 4), so it
+	// has nothing to wait for: if it is still parked when nothing else can happen,
+	// the shutdown left a stuck caller behind
+	if quiet {
+		for _, ts := range w.tasks {
+			if !ts.done && ts.acquiring && ts.afterShutdown && ts.ctxLive() {
+				e.Violate("C04", "stuck_after_shutdown", "%s invoked an acquisition after Shutdown of its provider had returned; it can never acquire, yet it is still blocked (context live) after %v of simulated time with nothing else going on; goroutines: %s", ts.name, time.Since(ts.blockedSince), strings.Join(e.RT.All(), "; "))
+				return
+			}
+		}
+	}
 	if len(w.inside) > 0 {
 		return
 	}
